@@ -112,42 +112,12 @@ pub fn run_history(env: &Env, lines: &[(u8, String)], st: &mut Stats) -> CaseRes
         st.class(&format!("strategy_{}", KIND_NAMES[*kind as usize % 5]));
         let cmd = json!({"cmd": "eval", "line": line, "save_prev": true});
         if cls.may_overrun {
-            // a huge literal exponent on a value of magnitude one: the statement allows it to take
-            // long (and rendering meter^1073741824 does), so an overrun is tolerated; a crash is not
+            // a huge exponent on a value of magnitude one: only the dimension exponents get large.
+            // Such inputs used to be given one second and allowed to overrun, because choosing an SI
+            // prefix for `meter^1073741824` took rink minutes; since that was repaired (the prefix
+            // loop is skipped for exponents beyond 1000) they answer at once and are judged like
+            // every other input.
             st.class("huge_exponent_on_unit_magnitude");
-            match sup.call(&cmd, Duration::from_secs(1)).map_err(|e| format!("worker: {}", e))? {
-                Outcome::Timeout(_) => {
-                    st.class("huge_exponent_on_unit_magnitude_overran (allowed to take long)");
-                    ans_bits = (1, 1);
-                    // the worker was replaced: give it a context again
-                    match sup.call(&json!({"cmd": "new_ctx"}), Duration::from_secs(60)).map_err(|e| format!("worker: {}", e))? {
-                        Outcome::Reply(_) => {}
-                        other => return Err(format!("[infrastructure] cannot create a context in the worker: {:?}", other)),
-                    }
-                    continue;
-                }
-                Outcome::Reply(v) => {
-                    if let Some(a) = v["ans_bits"].as_array() {
-                        ans_bits = (a[0].as_u64().unwrap_or(1), a[1].as_u64().unwrap_or(1));
-                    }
-                    st.nontrivial(line.as_str());
-                    continue;
-                }
-                other => {
-                    let sig = signature_of(&other);
-                    if env.known.contains(&sig) {
-                        st.known(&sig, line);
-                        ans_bits = (1, 1);
-                        continue;
-                    }
-                    let what = match &other {
-                        Outcome::Panic(p) => format!("panicked: {}", p),
-                        Outcome::Died(w) => format!("killed the process: {}", w),
-                        _ => unreachable!(),
-                    };
-                    return Err(format!("[{}] input `{}` {}", sig, line, what));
-                }
-            }
         }
         let mut out = sup.call(&cmd, budget).map_err(|e| format!("worker: {}", e))?;
         if let (Outcome::Timeout(_), false) = (&out, shrinking) {
